@@ -10,6 +10,10 @@ below, which is written from the property text and the comments of config/ksrsig
   scalar    pydantic's lax coercion table per field type (bool/int/str/timedelta/datetime/paths/…)
   random    random well-formed configurations, yaml.safe_dump -> KSKMConfig.from_yaml, every loaded value
             compared exactly (durations and datetimes in microseconds) with the generator's intent
+  validity  valid_from / valid_until of a key definition written as YAML text in every spelling of an ISO 8601
+            timestamp (no designator, `Z`, `+00:00`, non-UTC offsets, fractions, space separator, bare date, quoted
+            text) x both options x pairs: the loaded value must be the documented instant — a timestamp without
+            designator is UTC, as for KSR / SKR timestamps — and is never a datetime without time zone
   main      the real kskm.tools.ksrsigner.main() in subprocesses: exit statuses
   flags     single-flag-off policies x requests violating exactly one rule (builders of corr_C05)
   flag-pairs  every flag switched off x requests violating that flag's rule AND another rule at once (and each rule
@@ -148,6 +152,54 @@ def ascii_only(s: str) -> bool:
     return all(ord(c) < 128 for c in s)
 
 
+def doc_instant(v: dt.datetime | dt.date) -> dict[str, Any]:
+    """The documented reading of a configured validity ("ISO8601 timestamp of key inception / expiration",
+    config/ksrsigner.yaml), as the transport form [instant in us since the epoch, UTC offset in s]:
+    a timestamp with a zone designator is that instant, its offset kept; one WITHOUT designator is UTC (as for the
+    timestamps of KSRs and SKRs) — never a local time, never left without time zone; a bare date is its midnight.
+    Computed from the wall-clock fields alone (not with canon(), which the implementation's values go through)."""
+    if not isinstance(v, dt.datetime):
+        return {"ts": [(v - dt.date(1970, 1, 1)).days * DAY_US, 0]}
+    wall_us = (v.replace(tzinfo=None) - dt.datetime(1970, 1, 1)) // dt.timedelta(microseconds=1)
+    off = v.utcoffset()
+    if off is None:
+        return {"ts": [wall_us, 0]}
+    off_s = off // dt.timedelta(seconds=1)
+    return {"ts": [wall_us - off_s * SEC, off_s]}
+
+
+def naive_validities(loaded: Any) -> list[str]:
+    """keys.<name>.<valid_from|valid_until> of a loaded configuration (transport form) that carry no time zone"""
+    out = []
+    for k, v in (loaded.get("map") or []) if isinstance(loaded, dict) else []:
+        if k != "ksk_keys" or not isinstance(v, dict):
+            continue
+        for name, key in v.get("map") or []:
+            for opt, x in (key.get("map") or []) if isinstance(key, dict) else []:
+                if opt in ("valid_from", "valid_until") and isinstance(x, dict) and "ts" in x and x["ts"][1] is None:
+                    out.append(f"keys.{name}.{opt} = {x}")
+    return out
+
+
+def stated_validities(tree: Any) -> Iterator[tuple[tuple[Any, ...], dict[str, Any]]]:
+    """(path in the loaded configuration, documented instant) for every validity the file states as a YAML timestamp
+    or a bare date: whatever else the file contains, IF it loads, these are the values it must load"""
+    if not isinstance(tree, dict):
+        return
+    for sect in ("keys", "ksk_keys"):
+        if sect == "ksk_keys" and "keys" in tree:
+            continue  # `keys` replaces it
+        keys = tree.get(sect)
+        if not isinstance(keys, dict):
+            continue
+        for name, key in keys.items():
+            if not isinstance(name, str) or not isinstance(key, dict):
+                continue
+            for opt in ("valid_from", "valid_until"):
+                if isinstance(key.get(opt), dt.date):
+                    yield ("ksk_keys", name, opt), doc_instant(key[opt])
+
+
 def model_dicts() -> dict[tuple[str, ...], dict[str, tuple[Any, Any]]]:
     return {}
 
@@ -262,7 +314,7 @@ def leaf_verdict(kind: Any, v: Any, files: set[str]) -> tuple[bool | None, Any]:
         return (False, None)
     if kind == "datetime":
         if isinstance(v, dt.datetime):
-            return (True, canon(v))
+            return (True, doc_instant(v))
         if v is None or isinstance(v, (bool, list, dict)):
             return (False, None)
         if isinstance(v, str) and not any(c.isdigit() for c in v):
@@ -590,6 +642,7 @@ def load_impl(tree: Any, via_yaml: str | None = None) -> dict[str, Any]:
 
 
 RELOAD: dict[str, Any] = {"loads": 0, "modified": 0, "problems": []}
+WHAT_NAIVE = "a loaded KSK validity has no time zone (a timestamp without designator is UTC)"
 WHAT_RELOAD = "a second load of the same configuration dict does not give the stated values (the first load modified its caller's data)"
 
 
@@ -793,6 +846,13 @@ def example_cases(base: dict[str, Any], tier: str, r: Any) -> Iterator[dict[str,
             extras += [(("request_policy", opt), x) for x in vals]
     for opt in ("valid_until", "hash_using_hsm", "rsa_size", "key_tag"):
         extras += [(("keys", "ksk_next", opt), x) for x in (None, 0, 1, 65535, 65536, True, "abc", dt.datetime(2030, 1, 1, tzinfo=dt.timezone.utc), dt.date(2030, 1, 1))]
+    # a validity in every zone spelling a YAML timestamp can have: none (= UTC), UTC, east / west of UTC, a bare date
+    for opt in ("valid_from", "valid_until"):
+        for kname in ("ksk_current", "ksk_next"):
+            extras += [((("keys", kname, opt)), x) for x in (
+                dt.datetime(2030, 1, 1), dt.datetime(2030, 1, 1, 12, 30, 1, 500000), dt.datetime(2030, 1, 1, tzinfo=dt.timezone.utc),
+                dt.datetime(2030, 1, 1, tzinfo=dt.timezone(dt.timedelta(hours=2))), dt.datetime(2030, 1, 1, 3, 4, 5, tzinfo=dt.timezone(dt.timedelta(hours=-5, minutes=-30))),
+                dt.date(2030, 1, 1), "2030-01-01T00:00:00", "2030-01-01T00:00:00Z", "2030-01-01T00:00:00+02:00")]
     extras += [(("filenames", "output_trustanchor"), x) for x in ("ta.xml", "a//b", "", None, 5)]
     extras += [(("filenames", "input_ksr"), x) for x in ("does-not-exist.xml", str(Path(base["filenames"]["input_ksr"]).parent), None)]
     extras += [(("ksk_policy", "signature_policy"), x) for x in ({}, None, {"publish_safety": "P1D"}, [])]
@@ -869,6 +929,33 @@ def judge_tree(res: Result, case: dict[str, Any], impl: Any, model: Any, oracle:
         d = diff_expected(case["intent"], plain(impl["ok"]))
         if d:
             res.violation("loaded value differs from the configured value", mk(), key=f"intent:{case['tag']}", difference=d)
+    if "ok" in impl:
+        # a KSK validity is an instant: whatever the file holds, what is loaded carries a time zone …
+        nv = naive_validities(impl["ok"])
+        if nv:
+            res.violation(WHAT_NAIVE, mk(), key=f"naive-validity:{case['tag']}", where=nv[:4])
+        # … and a stated timestamp / date is loaded as the documented instant (no designator = UTC)
+        stated = list(stated_validities(tree))
+        if stated:
+            got_all = plain(impl["ok"])
+            for path, want in stated:
+                res.bump("validity:stated")
+                try:
+                    got = get_at(got_all, path)
+                except (KeyError, TypeError, IndexError):
+                    continue
+                d = diff_expected(want, got, fmt_path(path))
+                if d:
+                    res.violation("loaded value differs from the configured value", mk(), key=f"validity:{case['tag']}", difference=d)
+    if "expect_at" in case and "ok" in impl:
+        got_all = plain(impl["ok"])
+        for path, want in case["expect_at"]:
+            res.bump("validity:spelled")
+            d = diff_expected(want, get_at(got_all, path), fmt_path(path))
+            if d:
+                res.violation("loaded value differs from the configured value", mk(), key=f"spelled:{case['tag']}", difference=d)
+    if case.get("must_load") and "ok" not in impl:
+        res.violation("well-formed configuration is not loaded", mk(), key=f"{impl['error']}:{case['tag']}", impl=impl, oracle=case["must_load"])
     if model is None:
         return
     if lib.is_unsupported(model):
@@ -1206,12 +1293,14 @@ def gen_duration(r: Any) -> tuple[str, dict[str, int]]:
     return "P" + date + ("T" + time_ if time_ else ""), {"td": ((w * 7 + d) * 86400 + h * 3600 + m * 60 + s) * SEC}
 
 
-def gen_datetime(r: Any) -> tuple[dt.datetime, dict[str, Any]]:
+def gen_datetime(r: Any) -> tuple[dt.datetime | dt.date, dict[str, Any]]:
     base = dt.datetime(r.randint(1971, 2200), r.randint(1, 12), r.randint(1, 28), r.randint(0, 23), r.randint(0, 59), r.randint(0, 59), r.choice([0, 0, r.randint(0, 999999)]))
-    kind = r.choice(["utc", "naive", "offset"])
+    kind = r.choice(["utc", "naive", "offset", "date"])
     naive_us = (base - dt.datetime(1970, 1, 1)) // dt.timedelta(microseconds=1)
     if kind == "naive":
-        return base, {"ts": [naive_us, None]}
+        return base, {"ts": [naive_us, 0]}  # no designator: UTC
+    if kind == "date":
+        return base.date(), {"ts": [(base.date() - dt.date(1970, 1, 1)).days * DAY_US, 0]}  # midnight UTC
     if kind == "utc":
         return base.replace(tzinfo=dt.timezone.utc), {"ts": [naive_us, 0]}
     off = r.choice([-12, -5, 1, 2, 9]) * 3600 + r.choice([0, 0, 1800])
@@ -1329,6 +1418,88 @@ def random_stream(base: dict[str, Any], tier: str, r: Any, scratch: Path) -> Ite
 
 
 EXTRA_TREE_STREAMS.append(random_stream)
+
+
+# ------------------------------------------------------------------------------------------------
+# stream: KSK validity in every spelling of an ISO 8601 timestamp, as YAML text
+# ------------------------------------------------------------------------------------------------
+
+# (YAML scalar as written, wall-clock time, UTC offset in seconds or None = no designator, must it load?)
+# The expected instant is wall - offset, the expected loaded offset is the stated one, 0 when none is stated.
+VALIDITY_SPELLINGS: list[tuple[str, tuple[int, ...], int | None, bool]] = [
+    ("2010-07-15T00:00:00", (2010, 7, 15, 0, 0, 0, 0), None, True),
+    ("2010-07-15 00:00:00", (2010, 7, 15, 0, 0, 0, 0), None, True),
+    ("2010-07-15t12:30:01", (2010, 7, 15, 12, 30, 1, 0), None, True),
+    ("2010-07-15T23:59:59.999999", (2010, 7, 15, 23, 59, 59, 999999), None, True),
+    ("2010-07-15T00:00:00.5", (2010, 7, 15, 0, 0, 0, 500000), None, True),
+    ("2010-07-15T00:00:00Z", (2010, 7, 15, 0, 0, 0, 0), 0, True),
+    ("2010-07-15 00:00:00 Z", (2010, 7, 15, 0, 0, 0, 0), 0, True),
+    ("2010-07-15T00:00:00+00:00", (2010, 7, 15, 0, 0, 0, 0), 0, True),
+    ("2010-07-15T00:00:00-00:00", (2010, 7, 15, 0, 0, 0, 0), 0, True),
+    ("2010-07-15T00:00:00+02:00", (2010, 7, 15, 0, 0, 0, 0), 7200, True),
+    ("2010-07-15T00:00:00+02", (2010, 7, 15, 0, 0, 0, 0), 7200, True),
+    ("2010-07-15T00:00:00-05:00", (2010, 7, 15, 0, 0, 0, 0), -18000, True),
+    ("2010-07-15 00:00:00 -5", (2010, 7, 15, 0, 0, 0, 0), -18000, True),
+    ("2010-07-15T12:30:01.25+05:30", (2010, 7, 15, 12, 30, 1, 250000), 19800, True),
+    ("2010-07-15T00:00:00-11:30", (2010, 7, 15, 0, 0, 0, 0), -41400, True),
+    ("2010-07-15T00:00:00+14:00", (2010, 7, 15, 0, 0, 0, 0), 50400, True),
+    ("1969-12-31T23:59:59", (1969, 12, 31, 23, 59, 59, 0), None, True),
+    ("2038-01-19T03:14:08", (2038, 1, 19, 3, 14, 8, 0), None, True),
+    ("2024-03-31T02:30:00", (2024, 3, 31, 2, 30, 0, 0), None, True),  # inside a European DST gap: UTC has none
+    ("2024-10-27T02:30:00", (2024, 10, 27, 2, 30, 0, 0), None, True),  # ... and inside the repeated hour
+    ("2012-02-29T12:00:00", (2012, 2, 29, 12, 0, 0, 0), None, True),
+    # a bare date and quoted texts: the documentation says "timestamp"; IF accepted, they are that time in UTC
+    ("2010-07-15", (2010, 7, 15, 0, 0, 0, 0), None, False),
+    ("2012-02-29", (2012, 2, 29, 0, 0, 0, 0), None, False),
+    ("'2010-07-15T00:00:00'", (2010, 7, 15, 0, 0, 0, 0), None, False),
+    ("'2010-07-15 12:30:01'", (2010, 7, 15, 12, 30, 1, 0), None, False),
+    ("'2010-07-15T00:00:00Z'", (2010, 7, 15, 0, 0, 0, 0), 0, False),
+    ("'2010-07-15T00:00:00+02:00'", (2010, 7, 15, 0, 0, 0, 0), 7200, False),
+    ("'2010-07-15T00:00:00-0530'", (2010, 7, 15, 0, 0, 0, 0), -19800, False),
+    ("'2010-07-15'", (2010, 7, 15, 0, 0, 0, 0), None, False),
+]  # fmt: skip
+
+
+def spelled_instant(wall: tuple[int, ...], off: int | None) -> dict[str, Any]:
+    y, mo, d, h, mi, sec, us = wall
+    wall_us = ((dt.date(y, mo, d) - dt.date(1970, 1, 1)).days * 86400 + h * 3600 + mi * 60 + sec) * SEC + us
+    return {"ts": [wall_us - (off or 0) * SEC, off or 0]}
+
+
+def validity_stream(base: dict[str, Any], tier: str, r: Any, scratch: Path) -> Iterator[dict[str, Any]]:
+    import yaml
+
+    def text_of(keys: dict[str, dict[str, str]]) -> str:
+        out = ["keys:"]
+        for name, opts in keys.items():
+            out += [f"  {name}:", "    description: validity stream", f"    label: L_{name}", "    algorithm: RSASHA256"]
+            out += [f"    {o}: {v}" for o, v in opts.items()]
+        return "\n".join(out) + "\n"
+
+    def case(tag: str, keys: dict[str, dict[str, str]], expect: list[tuple[tuple[Any, ...], Any]], must: bool) -> dict[str, Any]:
+        text = text_of(keys)
+        c = {"stream": "validity", "tag": tag, "tree": yaml.safe_load(text), "yaml": text, "mutation": "validity", "expect_at": expect}
+        if must:
+            c["must_load"] = "every validity is an ISO 8601 timestamp"
+        return c
+
+    other = "2030-01-01T00:00:00+00:00"
+    for sp, wall, off, must in VALIDITY_SPELLINGS:
+        want = spelled_instant(wall, off)
+        yield case(f"valid_from={sp}", {"k": {"valid_from": sp}}, [(("ksk_keys", "k", "valid_from"), want), (("ksk_keys", "k", "valid_until"), None)], must)
+        yield case(f"valid_until={sp}", {"k": {"valid_from": other, "valid_until": sp}},
+                   [(("ksk_keys", "k", "valid_from"), spelled_instant((2030, 1, 1, 0, 0, 0, 0), 0)), (("ksk_keys", "k", "valid_until"), want)], must)
+    # pairs: the two options (and two keys) are read independently of each other
+    pairs = [(a, b) for a in VALIDITY_SPELLINGS for b in VALIDITY_SPELLINGS]
+    if tier == "quick":
+        pairs = r.sample(pairs, 120)
+    for (sa, wa, oa, ma), (sb, wb, ob, mb) in pairs:
+        yield case(f"valid_from={sa},valid_until={sb}", {"k": {"valid_from": sa, "valid_until": sb}, "j": {"valid_from": sb}},
+                   [(("ksk_keys", "k", "valid_from"), spelled_instant(wa, oa)), (("ksk_keys", "k", "valid_until"), spelled_instant(wb, ob)),
+                    (("ksk_keys", "j", "valid_from"), spelled_instant(wb, ob))], ma and mb)
+
+
+EXTRA_TREE_STREAMS.append(validity_stream)
 
 
 # ------------------------------------------------------------------------------------------------
